@@ -5,6 +5,7 @@
 package sxg
 
 import (
+	"crypto/rsa"
 	"bytes"
 	"crypto/sha256"
 	"encoding/base64"
@@ -326,6 +327,30 @@ func TestClean(t *testing.T) {
 					pub.SignatureHeaderValue = l.SigHeader
 				}
 			}
+			if c.Chance("repairedSigner", 1, 6) {
+				// history on ONE Signer object: its first use is refused (the configured key is of a
+				// kind the format does not support, and no Algorithm was preset), the operator
+				// repairs the key, the next use must work like a fresh Signer's
+				s := l.Signer()
+				s.Algorithm = nil
+				s.PrivKey = &rsa.PrivateKey{}
+				scratch := l.Unsigned()
+				var e1, e2 error
+				if scratch.MiEncodePayload(l.RS) == nil {
+					c.Guard("Exchange.AddSignatureHeader", func() { e1 = scratch.AddSignatureHeader(s) })
+					s.PrivKey = l.Leaf.Key
+					pi := c.Guard("Exchange.AddSignatureHeader", func() { e2 = scratch.AddSignatureHeader(s) })
+					if c.Oracle("C02") && e1 != nil {
+						if pi != nil || e2 != nil {
+							c.Violation("sign-error", "Exchange.AddSignatureHeader/repaired-signer", "a Signer whose key was repaired after a refused first use still fails: %v %v", e2, pi)
+						}
+						if v := verify(c, scratch, time.Unix(l.Date, 0), net); !v.ok || !bytes.Equal(v.payload, l.Payload) {
+							c.Violation("verify-failed", "Exchange.Verify/repaired-signer", "the exchange signed by a repaired Signer does not verify")
+						}
+					}
+					c.Probe("Signer repaired after a refused first use")
+				}
+			}
 			for _, tm := range instants(c, l) {
 				for i, e := range []*signedexchange.Exchange{pub, rd} {
 					v := verify(c, e, tm, net)
@@ -604,6 +629,9 @@ type world struct {
 	c    *core.Ctx
 	pubs []*gen.LSXG
 	net  *certNet
+	// clockShift: the attacker moved the (unsigned) date and expires parameters by this
+	// many seconds; the client's clock is read relative to the moved window
+	clockShift int64
 }
 
 func publish(c *core.Ctx, n int) *world {
@@ -741,7 +769,11 @@ func editSignature(c *core.Ctx, w *world, l *gen.LSXG, sig string) (string, stri
 			ps[idx("expires")].Raw = refsxg.RawInt(vals[c.Pick("sigedit.absExpires", len(vals))])
 		}
 	case "window-shift":
-		d := c.PickI64("sigedit.shift", -1000000, 1000000, 3600)
+		d := c.PickI64("sigedit.shift", -1000000, 1000000, 3600, 1<<32, -(1 << 32), 2<<32, 1<<31, 1<<33)
+		if d >= 1<<31 || d <= -(1<<31) {
+			// a shift by a multiple of a counter width, and a client whose clock is there too
+			w.clockShift = d
+		}
 		ps[idx("date")].Raw = refsxg.RawInt(l.Date + d)
 		ps[idx("expires")].Raw = refsxg.RawInt(l.Expires + d)
 	case "integrity":
@@ -790,6 +822,12 @@ func tamper(c *core.Ctx, w *world, l *gen.LSXG) (*signedexchange.Exchange, strin
 		data := l.File
 		n := c.Int("storage.n", 1, 2)
 		kind := "storage"
+		if c.Chance("storage.otherMagic", 1, 10) && len(data) >= 8 {
+			// the file signature of another (or of the future, final) version of the format
+			data = append([]byte(c.PickStr("storage.magic", "sxg1\x00\x00\x00\x00", "sxg1-b4\x00", "sxg1-b3\x00", "sxg1-b2\x00", "sxg1-b1\x00", "sxg1\x00b3\x00\x00")), data[8:]...)
+			c.Fault("storage-other-file-signature")
+			return readIt(data), "storage-magic"
+		}
 		for i := 0; i < n; i++ {
 			if c.Chance("storage.meta", 1, 4) {
 				f, err := refsxg.Parse(l.File)
@@ -938,7 +976,7 @@ func tamper(c *core.Ctx, w *world, l *gen.LSXG) (*signedexchange.Exchange, strin
 				c.Probe("edit on the publisher's object after Write")
 			}
 		}
-		ops := []string{"url", "status", "header-value", "header-value-pad", "header-add", "header-remove", "header-rename", "payload-bit", "payload-truncate-record", "payload-append", "payload-and-digest", "version", "payload-swap", "payload-recordsize"}
+		ops := []string{"url", "status", "header-value", "header-value-pad", "header-add", "header-remove", "header-rename", "payload-bit", "payload-truncate-record", "payload-append", "payload-and-digest", "version", "payload-swap", "payload-recordsize", "payload-rollback"}
 		if l.Version != "1b3" {
 			ops = append(ops, "method", "req-header-add")
 		}
@@ -1050,6 +1088,29 @@ func tamper(c *core.Ctx, w *world, l *gen.LSXG) (*signedexchange.Exchange, strin
 			dg, stream := refmice.Encode(d, evil, l.RS)
 			e.Payload = stream
 			e.ResponseHeaders.Set(d.HeaderName(), dg)
+		case "payload-rollback":
+			// the (unsigned) integrity parameter rewritten to name another header of the signed
+			// response that holds a well-formed digest - of the previous version - and the
+			// payload replaced by that version
+			if l.OldPayload != nil {
+				d := refmice.Draft03
+				if l.Version == "1b1" {
+					d = refmice.Draft02
+				}
+				_, stream := refmice.Encode(d, l.OldPayload, 16)
+				e.Payload = stream
+				if label, ps, perr := refsxg.ParseSignature(e.SignatureHeaderValue); perr == nil {
+					for i := range ps {
+						if ps[i].Key == "integrity" {
+							ps[i].Raw = refsxg.RawString(c.PickStr("field.rollbackIntegrity", "x-previous-digest/mi-sha256-03", "X-Previous-Digest/mi-sha256-03", "x-previous-digest"))
+						}
+					}
+					e.SignatureHeaderValue = refsxg.FormatSignature(label, ps)
+				}
+				c.Probe("rollback through a redirected integrity parameter")
+			} else {
+				e.Payload = append(e.Payload, 'x')
+			}
 		case "payload-swap":
 			o := w.pubs[c.Pick("field.from", len(w.pubs))]
 			if o == l {
@@ -1180,6 +1241,10 @@ func TestTamper(t *testing.T) {
 			var firstT time.Time
 			for i := 0; i < nver; i++ {
 				tm := clientTime(c, l)
+				if w.clockShift != 0 {
+					tm = time.Unix(tm.Unix()+w.clockShift, int64(tm.Nanosecond()))
+					c.Fault("clock-where-the-window-was-moved-to")
+				}
 				v := verify(c, e, tm, w.net)
 				if c.Oracle("C10", "C01") {
 					c.CheckTotal("Exchange.Verify", len(l.File), v.pi, v.alloc)
